@@ -167,6 +167,17 @@ class World:
 		os.unlink(self.out_path(m))
 
 	# -- projection ------------------------------------------------------------------------------------------
+	def old_version_output(self, m: str) -> None:
+		"""the existing output as another version of the application would have left it: same body, other version in the header"""
+		path = self.out_path(m)
+		with open(path) as f:
+			text = f.read()
+		first, _, body = text.partition('\n')
+		head = json.loads(first.split('@tranp.meta: ')[1])
+		head['version'] = '0.9.9'
+		with open(path, 'w') as f:
+			f.write('// @tranp.meta: ' + json.dumps(head, separators=(',', ':')) + '\n' + body)
+
 	def read_output(self, m: str) -> dict | None:
 		path = self.out_path(m)
 		if not os.path.exists(path):
